@@ -227,6 +227,6 @@ def Container.merge (srcs : List Container) : Container :=
   let counts := srcs.foldl (fun acc h => mergeStats acc h.stats) []
   ⟨some (createFrom counts, [], 0), [], []⟩
 
-def Container.clear (h : Container) : Container := ⟨none, [], []⟩
+def Container.clear (_h : Container) : Container := ⟨none, [], []⟩
 
 end FC.Huff
